@@ -44,6 +44,12 @@
 //!    up to 16385 (131073) entries), many members (N up to 32 (64): `try_join_all` changes its polling
 //!    discipline above 30 futures).
 //!
+//!  * several exchanges (hardening round 2): datasets that also hold trades and `Reconnecting` entries of a
+//!    SECOND exchange for which no execution is configured (market data of a venue that is watched but not
+//!    traded). That exchange sorts before the mocked one, so the mocked exchange is ExchangeIndex(1), its
+//!    instruments are InstrumentIndex(1..=2) and the unlinked exchange comes first in every table. "Every
+//!    event of its market dataset" includes those entries, and their order relative to the others counts.
+//!
 //! Because the sweep itself runs many backtests on 16 OS threads of one process, a defect that couples
 //! backtests through process-global state also shows up as interference BETWEEN sweep workers. Violations
 //! are therefore first collected as candidates; after the sweep every signature is confirmed by a serial
@@ -55,6 +61,10 @@
 //!  R1 completeness/order  "feeds every event of its market dataset to its engine exactly once and in
 //!     dataset order before shutting the engine down … nothing is skipped": the engine-local market log
 //!     equals the dataset, for every pacing, every member, alone and in a batch; the backtest succeeds.
+//!     An entry of the log is the event as the engine received it (trade id, instrument, price, and - hardening
+//!     round 2 - exchange time, exchange, side, amount: the dataset's own values, compared exactly; not the
+//!     receipt time), so an event that reaches the engine re-stamped or otherwise rewritten is not "the event of
+//!     the dataset" (cause `event-content-changed`).
 //!  R2 isolation (differential, no hand-written expectation) "running many backtests concurrently over
 //!     the same shared data and configuration gives each one the same fills, final positions, balances
 //!     and realised PnL that it produces when run alone": member i of a batch == the same strategy run
@@ -160,6 +170,21 @@ const STALL_MS: u64 = 6 * 3600 * 1000;
 /// The first trade of a dataset is always a plain one whatever its kind says.
 const CODE_RECONNECT: usize = 8;
 const CODES_ALL: [usize; 9] = [0, 1, 2, 3, 4, 5, 6, 7, 8];
+/// Codes of the *several exchanges* layer: 9 = a plain trade (one hour after the latest timestamp) on the
+/// instrument of the second, unlinked exchange; 10 = `MarketStreamEvent::Reconnecting` of that exchange. A
+/// dataset that holds one of them runs in the three-instrument layout (see `foreign_layout`).
+const CODE_FOREIGN_TRADE: usize = 9;
+const CODE_FOREIGN_RECONNECT: usize = 10;
+const CODES_MULTI_EXCHANGE: [usize; 4] = [0, 1, CODE_FOREIGN_TRADE, CODE_FOREIGN_RECONNECT];
+/// The second exchange: tracked by the engine (it has an instrument), no execution configured. It sorts
+/// BEFORE `EXCHANGE`, so it is ExchangeIndex(0) and its instrument InstrumentIndex(0).
+const FOREIGN_EXCHANGE: ExchangeId = ExchangeId::BinanceFuturesUsd;
+const FOREIGN_INSTRUMENT: (&str, &str, &str) = ("xbt_usdt_foreign", "XBTUSDT", "xbt");
+
+/// Datasets with entries of the second exchange run with three instruments (the foreign one first).
+fn foreign_layout(instr: &[usize]) -> bool {
+    instr.iter().any(|c| *c == CODE_FOREIGN_TRADE || *c == CODE_FOREIGN_RECONNECT)
+}
 /// `MEv::instrument` of a logged `Reconnecting` event
 const RECONNECT_MARK: usize = 99;
 
@@ -224,6 +249,20 @@ pub struct MEv {
     id: String,
     instrument: usize,
     price: String,
+    /// the rest of the event as the dataset holds it: exchange time, exchange, and for a trade its side and
+    /// amount. These are the dataset's own values (no clock of the backtest is involved), so they are
+    /// compared exactly: "feeds every event of its market dataset" means the event as given, not a
+    /// re-stamped or otherwise rewritten copy of it. The RECEIPT time is left out on purpose: it describes
+    /// the recording host, and a replay that re-stamps it is not judged. Empty for a `Reconnecting` entry.
+    stamp: String,
+}
+
+fn stamp_of(event: &MarketEvent<InstrumentIndex, DataKind>) -> String {
+    let detail = match &event.kind {
+        DataKind::Trade(t) => format!("{:?}|{}", t.side, t.amount),
+        _ => String::new(),
+    };
+    format!("{}|{}|{detail}", event.time_exchange.to_rfc3339(), event.exchange)
 }
 
 #[derive(Debug, Clone, PartialEq, Eq, Hash, Serialize)]
@@ -257,7 +296,7 @@ impl<'a> Processor<&'a MarketEvent<InstrumentIndex, DataKind>> for RecGlobal {
             DataKind::Trade(t) => (t.id.clone(), format!("{}", t.price)),
             other => ("?".to_string(), format!("{other:?}")),
         };
-        self.market.push(MEv { id, instrument: event.instrument.index(), price });
+        self.market.push(MEv { id, instrument: event.instrument.index(), price, stamp: stamp_of(event) });
     }
 }
 
@@ -362,7 +401,8 @@ impl AlgoStrategy for RecStrategy {
         if let Strat::Trade { buy, sell } = self.plan {
             let mk = |instrument: usize, side: Side, cid: String, price: Decimal| OrderRequestOpen {
                 key: OrderKey {
-                    exchange: ExchangeIndex(0),
+                    // the exchange of that instrument (ExchangeIndex(1) in the three-instrument layout)
+                    exchange: state.instruments.instrument_index(&InstrumentIndex(instrument)).instrument.exchange,
                     instrument: InstrumentIndex(instrument),
                     strategy: self.id.clone(),
                     cid: ClientOrderId::new(cid),
@@ -381,6 +421,9 @@ impl AlgoStrategy for RecStrategy {
             };
             if seen == buy && out.bought.is_none() {
                 let instrument = last_item.map(|e| e.instrument).unwrap_or(0);
+                // three-instrument layout: the foreign instrument (index 0) cannot be traded - no execution
+                // is configured for its exchange; buy the first mocked instrument instead
+                let instrument = if state.instruments.0.len() > INSTRUMENTS.len() && instrument == 0 { 1 } else { instrument };
                 if let Some(price) = price_of(instrument) {
                     out.bought = Some(instrument);
                     out.orders_sent.push(format!("buy@{seen}"));
@@ -424,7 +467,7 @@ impl ClosePositionsStrategy for RecStrategy {
 impl<C, T, R> OnDisconnectStrategy<C, St, T, R> for RecStrategy {
     type OnDisconnect = ();
     fn on_disconnect(engine: &mut Engine<C, St, T, Self, R>, exchange: ExchangeId) -> Self::OnDisconnect {
-        engine.state.global.market.push(MEv { id: "reconnecting".into(), instrument: RECONNECT_MARK, price: format!("{exchange}") });
+        engine.state.global.market.push(reconnect_mev(exchange));
     }
 }
 
@@ -502,12 +545,38 @@ fn dataset(instr: &[usize]) -> Vec<MEvent> {
     let mut latest_hour: i64 = -1;
     // previous trade and its hour
     let mut prev: Option<(MarketEvent<InstrumentIndex, DataKind>, i64)> = None;
+    // three-instrument layout: the foreign instrument is InstrumentIndex(0), the mocked ones follow
+    let base = if foreign_layout(instr) { 1 } else { 0 };
     for (i, code) in instr.iter().enumerate() {
         if *code == CODE_RECONNECT {
             out.push(MarketStreamEvent::Reconnecting(EXCHANGE));
             continue;
         }
-        let (kind, inst) = (code / 2, code % 2);
+        if *code == CODE_FOREIGN_RECONNECT {
+            out.push(MarketStreamEvent::Reconnecting(FOREIGN_EXCHANGE));
+            continue;
+        }
+        if *code == CODE_FOREIGN_TRADE {
+            let hour = latest_hour + 1;
+            latest_hour = hour;
+            let event = MarketEvent {
+                time_exchange: t_hour(hour),
+                time_received: t_hour(hour) + TimeDelta::seconds(5),
+                exchange: FOREIGN_EXCHANGE,
+                instrument: InstrumentIndex(0),
+                kind: DataKind::Trade(PublicTrade {
+                    // ids of the other exchange's trades start with 'x' (rule R1 names what was skipped)
+                    id: format!("x{}", i + 1),
+                    price: PRICES[i % PRICES.len()],
+                    amount: 1.0,
+                    side: if i % 2 == 0 { Side::Buy } else { Side::Sell },
+                }),
+            };
+            prev = Some((event.clone(), hour));
+            out.push(MarketStreamEvent::Item(event));
+            continue;
+        }
+        let (kind, inst) = (code / 2, code % 2 + base);
         let event = match (kind, &prev) {
             (3, Some((p, _))) => p.clone(),
             _ => {
@@ -519,7 +588,8 @@ fn dataset(instr: &[usize]) -> Vec<MEvent> {
                 latest_hour = latest_hour.max(hour);
                 let event = MarketEvent {
                     time_exchange: t_hour(hour),
-                    time_received: t_hour(hour),
+                    // receipt 5 s after the exchange time (the two are never equal)
+                    time_received: t_hour(hour) + TimeDelta::seconds(5),
                     exchange: EXCHANGE,
                     instrument: InstrumentIndex(inst),
                     kind: DataKind::Trade(PublicTrade {
@@ -538,12 +608,17 @@ fn dataset(instr: &[usize]) -> Vec<MEvent> {
     out
 }
 
+fn reconnect_mev(exchange: ExchangeId) -> MEv {
+    let id = if exchange == EXCHANGE { "reconnecting" } else { "reconnecting-other-exchange" };
+    MEv { id: id.into(), instrument: RECONNECT_MARK, price: format!("{exchange}"), stamp: String::new() }
+}
+
 fn mev_of(e: &MEvent) -> MEv {
     match e {
-        MarketStreamEvent::Reconnecting(exchange) => MEv { id: "reconnecting".into(), instrument: RECONNECT_MARK, price: format!("{exchange}") },
+        MarketStreamEvent::Reconnecting(exchange) => reconnect_mev(*exchange),
         MarketStreamEvent::Item(ev) => match &ev.kind {
-            DataKind::Trade(t) => MEv { id: t.id.clone(), instrument: ev.instrument.index(), price: format!("{}", t.price) },
-            other => MEv { id: "?".into(), instrument: ev.instrument.index(), price: format!("{other:?}") },
+            DataKind::Trade(t) => MEv { id: t.id.clone(), instrument: ev.instrument.index(), price: format!("{}", t.price), stamp: stamp_of(ev) },
+            other => MEv { id: "?".into(), instrument: ev.instrument.index(), price: format!("{other:?}"), stamp: stamp_of(ev) },
         },
     }
 }
@@ -613,9 +688,25 @@ fn member_rfr(i: usize) -> Decimal {
 }
 
 fn constants(instr: &[usize], source: &Source, latency_ms: u64) -> Args {
-    let instruments = IndexedInstruments::new(INSTRUMENTS.iter().map(|(internal, name_ex, base)| {
-        Instrument::spot(EXCHANGE, *internal, *name_ex, Underlying::new(*base, "usdt"), None)
-    }));
+    let foreign = foreign_layout(instr);
+    let mut list: Vec<Instrument<ExchangeId, barter_instrument::asset::Asset>> = INSTRUMENTS
+        .iter()
+        .map(|(internal, name_ex, base)| Instrument::spot(EXCHANGE, *internal, *name_ex, Underlying::new(*base, "usdt"), None))
+        .collect();
+    if foreign {
+        let (internal, name_ex, base) = FOREIGN_INSTRUMENT;
+        list.push(Instrument::spot(FOREIGN_EXCHANGE, internal, name_ex, Underlying::new(base, "usdt"), None));
+    }
+    let instruments = IndexedInstruments::new(list);
+    if foreign {
+        // the layout the dataset and the strategy rely on
+        let i = instruments.instruments();
+        assert!(
+            i.len() == 3 && i[0].value.exchange.value == FOREIGN_EXCHANGE && i[0].value.exchange.key == ExchangeIndex(0)
+                && i[1].value.exchange.value == EXCHANGE && i[2].value.exchange.value == EXCHANGE,
+            "harness: three-instrument layout is not [foreign, mocked, mocked]"
+        );
+    }
     let events = Arc::new(dataset(instr));
     let market_data = match source {
         Source::Paced(delays) => {
@@ -758,6 +849,24 @@ fn is_subsequence_missing_only(want: &[String], got: &[String], class: impl Fn(&
     gi == got.len()
 }
 
+/// `got` is `want` with some entries left out, all of which satisfy `class`, and at least one left-out entry
+/// is FOLLOWED by a delivered one (so the omission is not merely a cut-off tail).
+fn is_subsequence_missing_inner_only(want: &[String], got: &[String], class: impl Fn(&String) -> bool) -> bool {
+    let mut gi = 0;
+    let (mut pending, mut inner) = (false, false);
+    for w in want {
+        if gi < got.len() && *w == got[gi] {
+            gi += 1;
+            inner |= pending;
+        } else if class(w) {
+            pending = true;
+        } else {
+            return false;
+        }
+    }
+    gi == got.len() && inner
+}
+
 /// R1: the engine-local market log equals the dataset.
 fn rule_completeness(want: &[MEv], got: &[MEv], source: &Source, ctxs: &str, out: &mut Vec<Viol>) {
     if want == got {
@@ -778,6 +887,9 @@ fn rule_completeness(want: &[MEv], got: &[MEv], source: &Source, ctxs: &str, out
         "event-delivered-more-than-once"
     } else if gc.keys().any(|k| !wc.contains_key(k)) {
         "foreign-event"
+    } else if g.len() < w.len() && is_subsequence_missing_inner_only(&w, &g, |k| k.starts_with('x') || k.starts_with("reconnecting-other-exchange@")) {
+        // (a cut-off tail that happens to consist of the other exchange's entries is named as a cut-off tail below)
+        "entry-of-an-exchange-without-execution-skipped"
     } else if g.len() < w.len() && is_subsequence_missing_only(&w, &g, |k| k.starts_with("reconnecting@")) {
         "reconnecting-entry-skipped"
     } else if g.len() < w.len() && is_subsequence_missing_only(&w, &g, |k| wc.get(k).is_some_and(|m| *m > 1)) {
@@ -1178,7 +1290,7 @@ fn mt_smoke(ctx: &Ctx) -> Value {
     let n = 3usize;
     let strats = strategies(n);
     // (the last one: equal timestamps, then a `Reconnecting` entry)
-    let patterns: Vec<Vec<usize>> = vec![vec![0, 1, 0], vec![1, 1, 0], vec![0, 3, CODE_RECONNECT]];
+    let patterns: Vec<Vec<usize>> = vec![vec![0, 1, 0], vec![1, 1, 0], vec![0, 3, CODE_RECONNECT], vec![CODE_FOREIGN_TRADE, 0, CODE_FOREIGN_RECONNECT]];
     // real-time pacings (ms); the tail of the last one lets responses (latency 4 ms) land before Shutdown
     let sources = vec![Source::InMemory, Source::Paced(vec![0, 0, 0, 0]), Source::Paced(vec![1, 0, 1, 0]), Source::Paced(vec![6, 6, 6, 12])];
     // member triples: every strategy appears, neighbours differ; `stride` thins the list in the quick tier
@@ -1574,6 +1686,27 @@ pub fn run(ctx: &Ctx) -> Outcome {
         }
     }
 
+    // Several exchanges: every dataset of n <= 3 (thorough 4) entries over {trade on the 2 mocked instruments,
+    // trade on / Reconnecting of the second, unlinked exchange} that holds an entry of the second exchange and
+    // at least one trade, under the burst source and two paced ones; member caps as for the dataset shapes.
+    let mut multi_exchange_units = 0usize;
+    {
+        let n_multi = ctx.tier.pick(3usize, 4usize);
+        for n in 1..=n_multi {
+            let sources = [Source::InMemory, Source::Paced(vec![1; n + 1]), Source::Paced(vec![250; n + 1])];
+            for p in product(&CODES_MULTI_EXCHANGE, n).into_iter().filter(|p| foreign_layout(p)) {
+                if p.iter().all(|c| *c == CODE_FOREIGN_RECONNECT) {
+                    continue;
+                }
+                let cap = if n >= n_multi { 1 } else { 2 };
+                for s in &sources {
+                    units.push((p.clone(), s.clone(), cap));
+                    multi_exchange_units += 1;
+                }
+            }
+        }
+    }
+
     units.par_iter().for_each(|(instr, source, cap)| {
         let n = instr.len();
         let strats = strategies(n);
@@ -1680,26 +1813,28 @@ pub fn run(ctx: &Ctx) -> Outcome {
                 "instrument_patterns": "all 2^n",
                 "pacings": "menu^(n+1) with first delay > 0, plus the real MarketDataInMemory, plus a 6-hour (virtual) stall at each of the n+1 positions",
                 "dataset_shapes": "every dataset of n <= 3 (thorough 4) entries over {trade on 2 instruments stamped later / equal / one hour earlier than the previous trade, exact duplicate of the previous trade, Reconnecting} x {MarketDataInMemory, all delays 1 ms, all delays 250 ms} x every strategy alone (twice) and as a batch of one; below the largest n also every ordered pair of strategies",
+                "several_exchanges": "every dataset of n <= 3 (thorough 4) entries over {trade on the 2 mocked instruments, trade on the instrument of a second exchange without execution, Reconnecting of that exchange} with at least one entry of the second exchange x {MarketDataInMemory, all delays 1 ms, all delays 250 ms}; three-instrument layout, the unlinked exchange first (ExchangeIndex 0, InstrumentIndex 0); members as for dataset_shapes",
                 "strategies": "idle + buy@b/sell@s for all 1<=b<s<=n+1",
                 "members": "N=1,2: every ordered assignment for every dataset; N=3: every ordered assignment (n<=3), non-decreasing triples + reversals (n=4); at n=n_max N=3 only for datasets starting on instrument 0",
             },
             "exhaustive": true,
-            "rule": "every dataset (instrument pattern) x every pacing vector (menu^(n+1)) + real MarketDataInMemory x every ordered assignment of strategies to N in {1,2,3} members, each executed by the real backtest()/run_backtests() on a paused current-thread runtime; R1 completeness/order, R2 member-in-batch == same member alone (and alone twice), R3 summary is its own engine's",
+            "rule": "every dataset (instrument pattern) x every pacing vector (menu^(n+1)) + real MarketDataInMemory x every ordered assignment of strategies to N in {1,2,3} members, each executed by the real backtest()/run_backtests() on a paused current-thread runtime; R1 completeness/order (the engine's log equals the dataset entry by entry, including each event's exchange time, exchange, side and amount), R2 member-in-batch == same member alone (and alone twice), R3 summary is its own engine's",
             "samples": samples.take(),
             "heterogeneous_pacing_layer": hetero,
             "long_dataset_layer": long,
             "many_members_layer": many,
             "dataset_shape_units": shape_units,
+            "several_exchanges_units": multi_exchange_units,
             "stall_ms": STALL_MS,
             "auxiliary_multithread_smoke": smoke,
         }),
         assumptions: vec![
             "strategies decide from the number of market events seen only (timing-independent class of the statement)".into(),
             "pacing menus avoid coinciding virtual deadlines (asserted at start); multi-thread scheduler interleavings are not enumerated: on a current-thread runtime with paused time the only freedom is the relative order of market events and execution responses in the engine feed, which the pacing vectors enumerate".into(),
-            "one mocked exchange, two spot instruments, market orders of quantity 1, balances never exhausted, no disconnects and no fatal engine errors in the explored runs".into(),
+            "one mocked exchange, two spot instruments (several-exchanges layer: plus one instrument of a second exchange without execution, which the strategies never trade), market orders of quantity 1, balances never exhausted, no disconnects and no fatal engine errors in the explored runs".into(),
             "N=3 at the largest dataset size (n=3 quick, n=4 thorough) only for datasets starting on instrument 0; all smaller sizes: every dataset x N<=3; at n=4 the N=3 assignments are the non-decreasing strategy triples and their reversals (all ordered triples for n<=3, all ordered pairs for every n)".into(),
             "the first market event is delivered a positive virtual delay after system start, i.e. after the initial account snapshot".into(),
-            "timestamps are excluded from compared outcomes (HistoricalClock adds wall-clock deltas) except for the whole hour of a fill's exchange time; dataset timestamps are whole hours (main sweep: strictly increasing; dataset-shape layer: also equal and decreasing), so wall-clock jitter cannot move an exchange timestamp into another hour".into(),
+            "the timestamps carried by the market events themselves are dataset values that no clock touches: the exchange time is compared exactly in R1, the receipt time (exchange time + 5 s in every dataset) is not compared; timestamps produced by the backtest's clock are excluded from compared outcomes (HistoricalClock adds wall-clock deltas) except for the whole hour of a fill's exchange time; dataset timestamps are whole hours (main sweep: strictly increasing; dataset-shape layer: also equal and decreasing), so wall-clock jitter cannot move an exchange timestamp into another hour".into(),
             "a `Reconnecting` entry of the dataset is observed through the engine's call of the strategy's on_disconnect hook; the mock account stream never reconnects in the explored runs, so every such call stems from a market entry".into(),
             "stalled sources are modelled by one 6-hour virtual delay; a shutdown that gives up on the stream later than that is not distinguished from one that waits for ever".into(),
         ],
@@ -1722,6 +1857,12 @@ pub fn replay(ctx: &Ctx, case: &Value) {
             check_mt_smoke(&case.instr, &case.source, &case.members, case.mt_workers, &mut out);
         }
     } else {
+        // The sweep runs both instrument layouts (two instruments / three with an unlinked exchange first) in
+        // one process. A defect that couples backtests through process-global state keyed by configuration
+        // (something built once per exchange and re-used) shows only when a backtest of the OTHER layout ran
+        // before; on code where backtests do not affect one another this warm-up changes nothing.
+        let other: Vec<usize> = if foreign_layout(&case.instr) { vec![0, 1] } else { vec![CODE_FOREIGN_TRADE, 0] };
+        let _ = execute(&other, &Source::Paced(vec![1; other.len() + 1]), &[Strat::Trade { buy: 1, sell: 2 }], Mode::Alone);
         out = check_case_serial(&case, case.instr.len() <= 16);
         if case.instr.len() > 16 {
             // found by the long-dataset layer, whose signatures carry its name
